@@ -218,6 +218,71 @@ class C24(Property):
                 self.fsl_model_case(op, lres, rres, lsnap, rsnap, pre, lroot)
         shutil.rmtree(base, ignore_errors=True)
 
+    def misc_cases(self, ctx: Ctx, n: int) -> None:
+        """`_size` on a LIST of paths (get_storage_usages) and `resolve()` of a path registered in the data manager"""
+        import random
+        from streamflow.core.data import DataType
+        from streamflow.data.remotepath import _size
+        for _ in range(n):
+            if ctx.out_of_time():
+                ctx.extra["incomplete"] = True
+                break
+            seed = ctx.rng.randrange(1 << 30)
+            rng = random.Random(seed)
+            self.nseq += 1
+            base = os.path.join(ctx.scratch, f"m{self.gen}_{self.nseq}")
+            root = os.path.join(base, "tree")
+            nasty = rng.random() < 0.5
+            make_tree(rng, root, max_entries=10, nasty=0.5 if nasty else 0.0, symlinks=False)
+            entries = [k for k, v in snapshot(root).items() if k]
+            paths = [os.path.join(root, e) for e in rng.sample(entries, min(len(entries), rng.randint(1, 3)))] or [root]
+            context = make_context(base)
+            conn = MiniConnector("c24remote")
+            context.deployment_manager.deployments_map["c24remote"] = conn
+            rloc = ExecutionLocation(name="loc0", deployment="c24remote", local=False)
+            lloc = ExecutionLocation(name="__LOCAL__", deployment="__LOCAL__", local=True)
+            out = {}
+
+            async def go():
+                try:
+                    out["local"] = await _size(context, lloc, list(paths))
+                    try:
+                        out["remote"] = await _size(context, rloc, list(paths))
+                    except Exception as e:  # noqa: BLE001
+                        out["remote"] = f"error {type(e).__name__}"
+                    reg = paths[0]
+                    context.data_manager.register_path(location=rloc, path=reg, relpath=reg, data_type=DataType.PRIMARY)
+                    for dl in context.data_manager.get_data_locations(path=reg, deployment="c24remote", location_name="loc0"):
+                        dl.available.set()
+                    conn.commands.clear()
+                    r = await RemoteStreamFlowPath(reg, context=context, location=rloc).resolve()
+                    out["resolve"] = (None if r is None else str(r), len(conn.commands))
+                finally:
+                    await conn.undeploy(False)
+            special = not all(is_safe(p) for p in paths)
+            try:
+                run_watchdog(go, 60)
+            except Hang as e:
+                out["hang"] = str(e)
+            finally:
+                context.deployment_manager.deployments_map.pop("c24remote", None)
+                try:
+                    run_watchdog(context.close, 10)
+                except Exception:  # noqa: BLE001
+                    pass
+            rel = [os.path.relpath(p, root) for p in paths]
+            ctx.case({"op": "_size(list)+resolve(registered)", "paths": rel, "out": {k: str(v)[:60] for k, v in out.items()}}, ("misc", seed),
+                     f"size-list:{'nasty' if special else 'tame'}")
+            replay = {"op": "misc", "seed": seed}
+            if out.get("hang") or out.get("local") != out.get("remote"):
+                dq_safe = all(not any(c in p for c in '$`"\\') for p in paths)
+                key = "remote:size:path-not-quoted" if (special and not dq_safe) else "size-list:differs-from-local"
+                ctx.fail(key, f"_size({rel}): local {out.get('local')}, remote {out.get('remote')} {out.get('hang', '')}", replay)
+            if "resolve" in out and out["resolve"] != (paths[0], 0):
+                ctx.fail("resolve:registered-primary-path-not-returned-as-is",
+                         f"resolve() of the registered PRIMARY path {rel[0]!r} returned {out['resolve'][0]!r} after {out['resolve'][1]} shell command(s)", replay)
+            shutil.rmtree(base, ignore_errors=True)
+
     def plan(self, rng, entries: list[str], tame: bool, nops: int) -> list[dict]:
         plan = []
         known = list(entries)
@@ -498,6 +563,7 @@ class C24(Property):
                 else:
                     plan.append({"op": k, "path": g.choice(names), "args": {"target": g.choice(["a", "sub/x", "sub", "b"])}})
             self.run_sequence(ctx, tame=True, seq_seed=r3, ops=plan, links=True)
+        self.misc_cases(ctx, 20 if big else 4)
         # walk: one guaranteed case on a directory with a sub-directory (never terminates today: known finding) and one on a flat directory
         self.run_sequence(ctx, tame=True, seq_seed=rng.randrange(1 << 30), ops=[
             {"op": "mkdir", "path": "wflat", "args": {"mode": 0o755, "parents": False, "exist_ok": False}},
